@@ -119,10 +119,16 @@ func c08Input(r *fw.Rand, codec string, mtu int) ([]byte, string) {
 				mark = []byte{0x0A, 0x0B, 0, 0, 0} // OBU sequence header with size
 			case 5:
 				mark = []byte{0x32, byte(r.Intn(40))} // OBU frame with size field
+				if r.Chance(1, 3) {
+					mark = append([]byte{byte(r.Pick(0x32, 0x0A, 0x12, 0x36))}, gen.LEBMonster(r)...) // ... whose size field is a LEB128 monster
+				}
 			case 6:
 				mark = []byte{0x82, 0x49, 0x83, 0x42, 0x00} // VP9 key frame start
 			default:
 				mark = []byte{0, 0, 0}
+				if r.Bool() {
+					mark = gen.Magics[r.Intn(len(gen.Magics))]
+				}
 			}
 			if r.Chance(1, 3) {
 				pos = 0
